@@ -23,6 +23,9 @@ DECLARED_EXCLUSIONS = {'BSC_getpid', 'BSC_getuid', 'BSC_geteuid', 'BSC_getppid',
                        'BSC_vfork', 'BSC_bsdthread_create', 'BSC_abort_with_payload'}
 ERRNO_RE = re.compile(r', errno: (?:([A-Za-z0-9_]+)\((\d+)\)|(\d+))$')
 HUGE = (107, 200, 4000, 1 << 31, 1 << 63, (1 << 64) - 1)
+# negative numbers as the kernel's int / long would carry them, and the values just around the word boundaries
+NEGATIVE = tuple((1 << 64) - k for k in range(1, 9)) + tuple((1 << 32) - k for k in range(1, 9)) + \
+    ((1 << 32), (1 << 32) + 1, (1 << 31) - 1, (1 << 31) + 1, (1 << 63) - 1, (1 << 63) + 1, 0xfffffffe00000000 | 2)
 
 
 def render_outer(name, start, end, junk=()):
@@ -108,7 +111,7 @@ def check_decoder(res, ctx, rng, name):
     codes = list(range(1, 107)) if ctx.thorough or name.endswith(('read', 'open', 'pipe')) else \
         rng.sample(range(1, 107), 12) + [35, 106]
     aliased = [(1 << sh) | rng.randrange(1, 107) for sh in (8, 16, 31, 32, 63)] + [0xffffffff00000000 | 2]
-    for e in codes + list(HUGE) + aliased:
+    for e in codes + list(HUGE) + aliased + list(NEGATIVE):
         try:
             t = r(start, [e] + ret)
         except Exception as x:
